@@ -59,7 +59,8 @@ func InverseHint(mod *big.Int, inputs []*big.Int, outputs []*big.Int) error {
 	}
 	nbBits := uint(inputs[0].Uint64())
 	nbLimbs := int(inputs[1].Int64())
-	if len(inputs[2:]) < 2*nbLimbs {
+	// the value may be given on fewer limbs than the modulus (e.g. a small constant)
+	if len(inputs[2:]) < nbLimbs {
 		return errors.New("inputs missing")
 	}
 	if len(outputs) != nbLimbs {
